@@ -110,7 +110,7 @@ class HarnessResult:
             if self.only_unwinding_failures:
                 return "inconclusive", "unwinding bound too small: %s" % self.failed_checks[0]
             real = [c for c in self.failed_checks if "unwinding assertion" not in c["description"]]
-            if any(c["description"].startswith("harness:") for c in real):
+            if any(c["description"].strip('"\' ').startswith("harness:") for c in real):
                 return "inconclusive", "harness self-check failed: %s" % real[0]["description"]
             return "violation", ""
         return "inconclusive", "harness did not run"
